@@ -36,6 +36,7 @@ class RealSched:
         self.line_cov = {}
         self.switches = []
         self.online = []           # violations seen online: (sig, what, detail)
+        self.delays_fired = []
 
     @property
     def now(self):
@@ -49,6 +50,17 @@ class RealSched:
 
     def at(self, *a):
         raise NotImplementedError('scheduler hooks do not exist under Engine B')
+
+    def block(self, pred=None, deadline=None, tag=None):
+        """poll in real time; virtual deadlines of the harnesses (hundreds of seconds) are capped"""
+        end = time.monotonic() + (15.0 if deadline is None else min(15.0, max(0.0, deadline - self.now)))
+        while time.monotonic() < end:
+            if pred is not None and pred():
+                return True
+            time.sleep(0.001)
+        return bool(pred and pred())
+
+    max_runners_seen = 0
 
     def spawn(self, fn, name=None, daemon=False):
         def body():
@@ -100,6 +112,9 @@ class RealLoop(asyncio.SelectorEventLoop):
     def run_forever(self):
         self._sim_runners += 1
         self._sim_max_runners = max(self._sim_max_runners, self._sim_runners)
+        sc = CURB[0]
+        if sc is not None and self._sim_runners > sc.max_runners_seen:
+            sc.max_runners_seen = self._sim_runners
         try:
             return super().run_forever()
         finally:
@@ -252,6 +267,184 @@ def run_cache(flavour, seed, n):
     os._exit(0)
 
 
+def batch_case(kind, flavour, seed, n, nontrivial_key, timeout=420):
+    """Parent side: run one Engine B batch in a child process and fold what it observed into a CaseResult."""
+    import os
+    import subprocess
+    from vf.core import CaseResult, PY, VERIF, REPO
+    res = CaseResult()
+    env = dict(os.environ, PYTHONPATH=os.pathsep.join([REPO, VERIF]), PYTHONHASHSEED='0')
+    try:
+        p = subprocess.run([PY, '-m', 'vf.engine_b', kind, flavour, str(seed), str(n)], env=env, cwd=VERIF,
+                           capture_output=True, timeout=timeout)
+        out = json.loads(p.stdout.decode().strip().splitlines()[-1])
+    except Exception as e:        # noqa
+        res.inconclusive = f'engine B child failed: {e!r}'
+        return res
+    res.stats.update(out['stats'])
+    res.stats['fam_real'] += 1
+    for v in out['violations']:
+        if v['sig'].startswith('B:'):
+            res.inconclusive = 'engine B: ' + v['what']
+        else:
+            res.violations.append({'sig': v['sig'], 'what': v['what'] + ' [Engine B, real threads]', 'detail': v['detail']})
+    res.nontrivial = out['stats'].get(nontrivial_key, 0) > 0
+    res.sig = f"real:{seed}:{out['stats'].get('real_injected_yields', 0)}"
+    res.sample = {'engine': 'B (free-running real threads, LINE-level sleep injection)',
+                  'executions': out['stats'].get('real_executions'),
+                  'injected_yields': out['stats'].get('real_injected_yields'),
+                  'watchdog_inconclusive': out['stats'].get('real_watchdog_inconclusive', 0)}
+    if res.nontrivial:
+        res.stats['nontrivial'] += 1
+    return res
+
+
+def _common_setup(seed, p=0.12):
+    import logging
+    logging.disable(logging.CRITICAL)
+    import warnings
+    warnings.simplefilter('ignore')
+    import aiuti.asyncio as A
+    asyncio.set_event_loop_policy(RealPolicy())
+    install_injection(A, seed, p)
+    return A
+
+
+def _scale(x, f):
+    return x * f if isinstance(x, float) else x
+
+
+def run_buffer(flavour, seed, n):
+    """C03 / C07 safety oracles (loss, phantom, retry, exactly-once, barrier) with real threads and real time."""
+    A = _common_setup(seed)
+    from vf.props import buffer as Bf
+    from vf.core import CaseResult, jsonable
+    h = Bf.BufferHarness(A, execute=execute)
+    stats = collections.Counter()
+    viols = []
+    rng0 = random.Random(seed)
+    F = 0.25          # real time: quarter-size durations (timeout 16 ms or 62 ms)
+    for i in range(n):
+        rng = random.Random(rng0.randrange(1 << 60))
+        prog = Bf.gen(rng, flavour)
+        if prog['shutdown'] is not None:
+            continue
+        prog['cfg']['T'] *= F
+        prog['cfg']['fdur'] *= F
+        prog['cfg']['debug'] = prog['cfg']['debug'] and rng.random() < 0.5
+        for a in prog['acts']:
+            a['t'] *= F
+            a['d'] = _scale(a['d'], F)
+        for fa in prog['foreign']:
+            for a in fa:
+                a['t'] *= F
+        if prog.get('migrate'):
+            for a in prog['migrate']['phase2']:
+                a['t'] *= F
+        r = h.run(prog, None, flavour)
+        stats['real_executions'] += 1
+        if r.verdict == 'watchdog':
+            stats['real_watchdog_inconclusive'] += 1
+            import faulthandler
+            sys.stderr.write('WATCHDOG program: ' + json.dumps(prog, default=repr) + '\n')
+            faulthandler.dump_traceback(file=sys.stderr, all_threads=True)
+            break
+        if r.thread_errors:
+            viols.append({'sig': 'B:harness-thread-error', 'what': repr(r.thread_errors[:2]), 'detail': {}})
+            continue
+        res = CaseResult()
+        v = Bf.BView(r.log)
+        if flavour == 'c03':
+            Bf.judge_c03(v, res, None)
+        else:
+            Bf.judge_c07(v, res, r, prog)
+        stats.update(res.stats)
+        if prog['foreign'] or prog.get('migrate'):
+            stats['real_executions_with_foreign_threads'] += 1
+        for vv in res.violations:
+            vv['detail'] = jsonable({'program': prog, 'log': r.log[:80], 'detail': vv['detail']})
+            viols.append(vv)
+    stats['real_injected_yields'] = _injected[0]
+    print(json.dumps({'stats': dict(stats), 'violations': viols[:5], 'nviol': len(viols)}))
+    sys.stdout.flush()
+    import os
+    os._exit(0)
+
+
+def run_ensure(flavour, seed, n):
+    """C17 identity / affinity / runner-count / completion oracles with real threads."""
+    A = _common_setup(seed, p=0.15)
+    from vf.props import ensure as E
+    h = E.EnsureHarness(A, execute=execute)
+    chk = E.C17()
+    chk.h = h
+    stats = collections.Counter()
+    viols = []
+    rng0 = random.Random(seed)
+    for i in range(n):
+        rng = random.Random(rng0.randrange(1 << 60))
+        scen = E.gen(rng)
+        scen['dep'] = False
+        for c in scen['callers'] + scen.get('phase2', []):
+            c.pop('role', None)
+        r = h.run(scen, None)
+        stats['real_executions'] += 1
+        if r.verdict == 'watchdog':
+            stats['real_watchdog_inconclusive'] += 1
+            import faulthandler
+            sys.stderr.write('WATCHDOG scenario: ' + json.dumps(scen, default=repr) + '\n')
+            faulthandler.dump_traceback(file=sys.stderr, all_threads=True)
+            for e in r.log[-30:]:
+                sys.stderr.write(repr(e) + '\n')
+            break
+        if r.thread_errors:
+            viols.append({'sig': 'B:harness-thread-error', 'what': repr(r.thread_errors[:2]), 'detail': {}})
+            continue
+        res = chk.judge(scen, r, None)
+        stats.update(res.stats)
+        for vv in res.violations:
+            viols.append(vv)
+    stats['real_injected_yields'] = _injected[0]
+    print(json.dumps({'stats': dict(stats), 'violations': viols[:5], 'nviol': len(viols)}, default=repr))
+    sys.stdout.flush()
+    import os
+    os._exit(0)
+
+
+def run_iters(flavour, seed, n):
+    """C16 sequence / exception identity / helper-thread census with real threads (responsiveness is not judged in real time)."""
+    A = _common_setup(seed, p=0.15)
+    from vf.props import iters as I
+    h = I.IterHarness(A, execute=execute)
+    chk = I.C16()
+    chk.h = h
+    stats = collections.Counter()
+    viols = []
+    rng0 = random.Random(seed)
+    for i in range(n):
+        rng = random.Random(rng0.randrange(1 << 60))
+        scen = I.gen(rng)
+        scen['pd'] = min(scen['pd'], 5 * I.TICK)
+        scen['cd'] = min(scen['cd'], 5 * I.TICK)
+        r = h.run(scen, None)
+        stats['real_executions'] += 1
+        if r.verdict == 'watchdog':
+            stats['real_watchdog_inconclusive'] += 1
+            break
+        if r.thread_errors:
+            viols.append({'sig': 'B:harness-thread-error', 'what': repr(r.thread_errors[:2]), 'detail': {}})
+            continue
+        res = chk.judge(scen, r, None, real=True)
+        stats.update(res.stats)
+        for vv in res.violations:
+            viols.append(vv)
+    stats['real_injected_yields'] = _injected[0]
+    print(json.dumps({'stats': dict(stats), 'violations': viols[:5], 'nviol': len(viols)}, default=repr))
+    sys.stdout.flush()
+    import os
+    os._exit(0)
+
+
 if __name__ == '__main__':
-    if sys.argv[1] == 'cache':
-        run_cache(sys.argv[2], int(sys.argv[3]), int(sys.argv[4]))
+    {'cache': run_cache, 'buffer': run_buffer, 'ensure': run_ensure, 'iters': run_iters}[sys.argv[1]](
+        sys.argv[2], int(sys.argv[3]), int(sys.argv[4]))
